@@ -211,35 +211,43 @@ def run(tier, seed, replay_path=None):
         if replay_path:
             chosen = [[tuple(x) for x in json.load(open(replay_path))["case"]["history"]]]
         seeds = list(range(8 if deep else 3))
-        singles = sorted({c for h in chosen for c in h})
-        base_args = [([[cls, paths[f]]], hs) for (cls, f) in singles for hs in seeds]
-        hist_args = [([[cls, paths[f]] for cls, f in h], 0) for h in chosen]
+        # the form in which a call hands the options over: a file name (the converters take nothing else) or, for one
+        # later call in three of the sampled histories, the text itself (read_ampgen(text=...))
+        n_sampled = min(len(hists2), nh // 2) + min(len(hists), nh - nh // 2)
+        hows = [["text" if (hi < n_sampled and j > 0 and (hi + j) % 3 == 0) else "file" for j in range(len(h))]
+                for hi, h in enumerate(chosen)]
+        if replay_path:
+            hows = [json.load(open(replay_path))["case"].get("hows") or ["file"] * len(chosen[0])]
+        singles = sorted({(cls, f, hw) for h, hwl in zip(chosen, hows) for (cls, f), hw in zip(h, hwl)})
+        base_args = [([[cls, paths[f], hw]], hs) for (cls, f, hw) in singles for hs in (seeds if hw == "file" else seeds[:2])]
+        hist_args = [([[cls, paths[f], hw] for (cls, f), hw in zip(h, hwl)], 0) for h, hwl in zip(chosen, hows)]
         # the same history once more in another fresh process: must reproduce the text exactly
         again = hist_args[: (20 if deep else 3)]
         results = pmap(child, base_args + hist_args + again, chunk=1, limit=1700)
         base = {}
         for (calls, hs), res in zip(base_args, results[: len(base_args)]):
-            base[(calls[0][0], Path(calls[0][1]).stem, hs)] = res[0]
+            base[(calls[0][0], Path(calls[0][1]).stem, calls[0][2], hs)] = res[0]
         hres = results[len(base_args): len(base_args) + len(hist_args)]
         ares = results[len(base_args) + len(hist_args):]
         # hash-seed independence of a single call in a fresh interpreter
-        for (cls, f) in singles:
-            ref = canon(base[(cls, f, 0)])
+        for (cls, f, hw) in singles:
+            ref = canon(base[(cls, f, hw, 0)])
             o.traces += 1
-            for hs in seeds[1:]:
+            for hs in (seeds[1:] if hw == "file" else seeds[1:2]):
                 o.evaluations += 1
-                if canon(base[(cls, f, hs)]) != ref:
-                    o.violate("C20:output-independent-of-the-hash-seed", {"history": [[cls, f]], "hashseed": hs},
-                              {"diff": _diff(ref, canon(base[(cls, f, hs)]))})
+                if canon(base[(cls, f, hw, hs)]) != ref:
+                    o.violate("C20:output-independent-of-the-hash-seed", {"history": [[cls, f]], "hows": [hw], "hashseed": hs},
+                              {"diff": _diff(ref, canon(base[(cls, f, hw, hs)]))})
         # history independence
-        for h, res in zip(chosen, hres):
+        for h, hwl, res in zip(chosen, hows, hres):
             o.traces += 1
-            o.nontrivial.add(json.dumps(h))
-            for i, ((cls, f), got) in enumerate(zip(h, res)):
+            o.nontrivial.add(json.dumps([h, hwl]))
+            for i, ((cls, f), hw, got) in enumerate(zip(h, hwl, res)):
                 o.evaluations += 1
-                if canon(got) != canon(base[(cls, f, 0)]):
-                    o.violate("C20:same-result-whatever-was-read-or-converted-before", {"history": [list(x) for x in h[: i + 1]]},
-                              {"call": [cls, f], "diff": _diff(canon(base[(cls, f, 0)]), canon(got))})
+                if canon(got) != canon(base[(cls, f, hw, 0)]):
+                    o.violate("C20:same-result-whatever-was-read-or-converted-before",
+                              {"history": [list(x) for x in h[: i + 1]], "hows": hwl[: i + 1]},
+                              {"call": [cls, f, hw], "diff": _diff(canon(base[(cls, f, hw, 0)]), canon(got))})
                     break
         # the recorded histories as traces of AmpSession.tla (declared resonance variables, coupling kind)
         pn = prog_names()
@@ -261,7 +269,7 @@ def run(tier, seed, replay_path=None):
             o.traces += 1
             if r1 != r2_:
                 o.violate("C20:same-history-in-a-fresh-process-reproduces-the-text-exactly",
-                          {"history": [[c, Path(p).stem] for c, p in calls]}, {})
+                          {"history": [[x[0], Path(x[1]).stem] for x in calls], "hows": [x[2] for x in calls]}, {})
         o.notes.update(histories_run=len(chosen), single_calls=len(singles), hash_seeds=seeds, fresh_interpreters=len(results))
         o.sample({"history": [list(x) for x in chosen[0]], "files": TEXTS})
         o.rule = ("histories of 2 and 3 read/convert calls (3 reader classes x 8 files with disjoint / overlapping resonances, the "
